@@ -7,7 +7,7 @@
 //! scenario := ( fix cfg ( tal* ) ( run* ) )
 //! cfg      := ( stale maxDepth aspa bgpsec )        stale: 0 reject 1 warn 2 accept
 //! tal      := ( key ( uri* ) )
-//! run      := ( now hasView ( tafile* ) ( point* ) ( tamper* ) )
+//! run      := ( now hasView cleanup ( tafile* ) ( point* ) ( tamper* ) )
 //! tafile   := ( uri id ) | ( uri id ( key ok notBefore notAfter repo mft ) )
 //! point    := ( mftUri mftfile ( file* ) ( pick* ) )
 //! mftfile  := ( ) | ( id ) | ( id cert crlName number thisUpdate nextUpdate ( entry* ) )
@@ -377,8 +377,9 @@ impl<'a> Encoder<'a> {
                     .unwrap_or_else(|_| big_hex_to_dec(&t.number));
                 Some(format!("( {} {} {} )", self.uris.get(&ca.mft_uri()), number, t.this_update))
             }).collect();
+            let cleanup = opts.cleanup && !opts.dirty;
             runs.push(format!(
-                "( {} {} ( {} ) ( {} ) ( {} ) )", run.now, b(update),
+                "( {} {} {} ( {} ) ( {} ) ( {} ) )", run.now, b(update), b(cleanup),
                 tas.join(" "), points.join(" "), tamper.join(" ")
             ));
         }
